@@ -409,6 +409,7 @@ func checkC02(r *Result, rng *rand.Rand, thorough bool) {
 		ncases, n = 600, 80
 	}
 	c02Thorough = thorough
+	staleLinkCorpus(r)
 	r.Rule = "random LOOKUP/CREATE/MKDIR/SYMLINK/REMOVE/RMDIR/RENAME/READDIR(PLUS)/GETATTR/READLINK/ACCESS histories (names a-d, links l1-l2, depth <= 2; every third history 'tight': names a-b only and mostly LOOKUP/MKDIR/RMDIR/RENAME/CREATE/REMOVE so that names are reused and looked up while absent) run under all 8 combinations of attribute TTL x dir cache x negative cache (thorough: plus mid-history expiry and a 3-entry attribute cache); each run judged against a shadow tree model, every run's replies compared with the cache-less run"
 	for i := 0; i < ncases; i++ {
 		g := &nsGen{depth: 2, tight: i%3 == 2}
@@ -424,5 +425,49 @@ func checkC02(r *Result, rng *rand.Rand, thorough bool) {
 		if i < 2 {
 			r.sample(c.strings())
 		}
+	}
+}
+
+// staleLinkCorpus runs first: the history behind Props.C26's kernel-evaluated `sl_*` demo (DESIGN §11.7). A client keeps
+// the handle of a directory /k; /k is removed and a link to another directory /o is renamed into its place; READDIR
+// through the old handle makes the server store /o's listing under the key /k. The directory cache then holds a strict
+// superset of what the backend has below /k — the one shape in which "cached = backend" fails — and replies must still
+// be those of the cache-less run, before and after /o changes. The requests are replayed in the Lean model as well.
+func staleLinkCorpus(r *Result) {
+	c := SrvCase{Cfg: SrvCfg{KeepStale: true}}
+	c.Ops = []SOp{
+		{Kind: "mkdir", Dir: "/", Name: "k"}, {Kind: "mkdir", Dir: "/", Name: "o"}, {Kind: "mkdir", Dir: "/o", Name: "x"},
+		{Kind: "readdir", Dir: "/k", Count: 4096},
+		{Kind: "rmdir", Dir: "/", Name: "k"}, {Kind: "symlink", Dir: "/", Name: "l", Target: "o"},
+		{Kind: "rename", Dir: "/", Name: "l", Dir2: "/", Name2: "k"},
+		{Kind: "readdir", Dir: "/k", Count: 4096}, {Kind: "readdirplus", Dir: "/k", Count: 4096},
+		{Kind: "mkdir", Dir: "/o", Name: "y"}, {Kind: "readdir", Dir: "/k", Count: 4096}, {Kind: "readdir", Dir: "/o", Count: 4096},
+		{Kind: "remove", Dir: "/", Name: "k"}, {Kind: "mkdir", Dir: "/", Name: "k"}, {Kind: "readdir", Dir: "/k", Count: 4096},
+		{Kind: "mkdir", Dir: "/k", Name: "z"}, {Kind: "readdir", Dir: "/k", Count: 4096},
+	}
+	r.noteCase("corpus: stale-link", true)
+	r.count("corpus-stale-link")
+	var base nsRun
+	for i, cfg := range cacheConfigs(c.Cfg, c02Thorough) {
+		run := runNs(c, cfg)
+		if i == 0 {
+			base = run
+			continue
+		}
+		for j := range c.Ops {
+			if run.sigs[j] != base.sigs[j] {
+				v := Violation{Class: "cache-visible:" + c.Ops[j].Kind,
+					What:   fmt.Sprintf("stale-link corpus: enabling caches changed the reply to %s [%s]", strings.ToUpper(c.Ops[j].Kind), cfg.String()),
+					Detail: fmt.Sprintf("op %d: %s | without caches: %s | with: %s", j, c.Ops[j].String(), base.sigs[j], run.sigs[j])}
+				v.Ops, v.Case = c.strings(), c
+				r.violate(v)
+				return
+			}
+		}
+	}
+	// the last two listings are not vacuous: the new /k is empty, then holds z
+	n := len(c.Ops)
+	if !strings.Contains(base.sigs[n-1], "z") {
+		r.Notes = append(r.Notes, "stale-link corpus: the final listing does not name z: "+base.sigs[n-1])
 	}
 }
